@@ -11,7 +11,28 @@
 // calls with direction changes.  In "static" runs the broadcaster finishes
 // before the searcher starts (strict oracle: order, completeness, not-found);
 // in "dynamic" runs the scheduler interleaves broadcaster packets between the
-// searcher's calls (cache updates between calls; per-return oracle only).
+// searcher's calls (cache updates between calls): a pass during which the cache
+// changed gets the per-return oracle only from the change on, passes between two
+// updates the strict one.
+//
+// Contexts are long-lived: besides single calls with direction changes a
+// context runs whole passes ("pass" op: vbi_search_next until not-found)
+// followed by further passes in the same or the opposite direction, and
+// contexts share start pages.  Pass model, from search.h / the documentation of
+// vbi_search_new():
+//   * first call, or first call after not-found ("Another vbi_search_next() will
+//     restart from the original starting point"): a pass from the start page of
+//     vbi_search_new(), forward or backward, as a fresh context would make it.
+//     For backward passes three readings of "starting at the start page" are
+//     accepted (start page last / first / all its subpages first), but all
+//     backward passes from one start page over one cache must follow the same
+//     one whatever the context did before (oracle:search-start-moved);
+//   * direction change in the middle of a pass (documentation silent): a new
+//     pass from the page returned last, its remainder first, wrapping once;
+//   * passes after not-found in a context that changed direction mid-pass: the
+//     implementation restarts where the direction last changed, search.h says
+//     the original starting point, the statement says nothing: any first page
+//     is accepted; page order, once per pass, completeness, not-found checked.
 //
 // Reference: page store keyed (pgno, subno) mirroring what a receiver must hold
 // + the Level-1 formatter of worlds/ttx.h -> expected displayed rows 1-23;
@@ -349,6 +370,7 @@ struct C17 : World {
   //  task 0 "page" a=[pgno, subsel, seed, flags(1 erase, 2 row 24), nrows, style]
   //  task 1 "new"  a=[pgno, subsel(0 wildcard, 1 zero, n>1 explicit), casefold, regexp, progress(0 none,1 observe,2 cancel), cancel_n, patsrc, patarg, patlen] s=pattern
   //  task 1 "next" a=[dir(0 backward, 1 forward)]      task 1 "pump" a=[n] searcher yields n times
+  //  task 1 "pass" a=[dir, n] vbi_search_next(dir) until not-found, at most 1 + n % 64 calls
   Plan generate(uint64_t seed, const std::string& tier) override {
     Plan p; p.world = name(); p.seed = seed;
     Rng r(seed, "plan");
@@ -383,13 +405,16 @@ struct C17 : World {
     }
     int nctx = 1 + (int)r.below(3 * (uint64_t)big);
     int re_mask = r.chance(1, 3) ? 127 : (int)r.below(128);
+    int64_t prev_start[2] = {0, 0};
     for (int c = 0; c < nctx; c++) {
       Op o; o.task = 1; o.kind = "new";
       int pgno;
       switch (r.below(8)) {
         case 0: pgno = 0x100; break;
         case 1: pgno = 0x8FF; break;
-        case 2: case 3: pgno = car[r.below(car.size())] + (int)r.below(3) - 1; break;
+        // (a "page" op transmits page sanitize_pgno(carousel entry): the start page is taken from what is transmitted)
+        case 2: case 3: pgno = sanitize_pgno(car[r.below(car.size())]) + (int)r.below(3) - 1; if (pgno < 0x100) pgno = 0x8FF; break;
+        case 5: case 6: pgno = sanitize_pgno(car[r.below(car.size())]); break;  // "starting at the start page": the start page itself is cached
         case 4: { static const int e[] = {0x1FF, 0x200, 0x7FF, 0x800, 0x8FE, 0x101}; pgno = e[r.below(6)]; break; }
         default: pgno = 0x100 + (int)r.below(0x800); break;
       }
@@ -402,7 +427,24 @@ struct C17 : World {
       // patsrc 2: the same, at a place where a partial match overlaps the occurrence
       o.a = {pgno - 0x100, (int64_t)(r.chance(1, 2) ? 0 : r.below(5)), (int64_t)r.below(2), regexp ? 1 : 0, prog, 1 + (int64_t)r.below(6), (!regexp && r.chance(1, 2)) ? 1 + (int64_t)r.below(2) : 0, (int64_t)r.below(100000), 2 + (int64_t)r.below(10)};
       o.s = pat;
+      // the same start page (and subpage selector) as the previous context: where a pass starts is a function of the
+      // start page and the direction, not of what a context did before
+      if (c > 0 && r.chance(1, 2)) { o.a[0] = prev_start[0]; o.a[1] = prev_start[1]; }
+      prev_start[0] = o.a[0]; prev_start[1] = o.a[1];
       p.ops.push_back(o);
+      if (r.chance(3, 5)) {
+        // a long-lived context: whole passes (run to not-found) followed by further passes in the same or the opposite
+        // direction, with single calls (a pass left in the middle, a direction change in the middle) in between
+        int nseg = 1 + (int)r.below(6);
+        int dir = (int)r.below(2);
+        for (int sg = 0; sg < nseg; sg++) {
+          if (sg && r.chance(3, 5)) dir ^= 1;
+          if (r.chance(3, 4)) { Op x; x.task = 1; x.kind = "pass"; x.a = {dir, r.chance(3, 4) ? 39 : (int64_t)r.below(40)}; p.ops.push_back(x); }
+          else { int k = 1 + (int)r.below(4); for (int i = 0; i < k; i++) { Op x; x.task = 1; x.kind = "next"; x.a = {dir}; p.ops.push_back(x); } }
+          if (r.chance(1, 4)) { Op y; y.task = 1; y.kind = "pump"; y.a = {1 + (int64_t)r.below(40)}; p.ops.push_back(y); }
+        }
+        continue;
+      }
       int n = 1 + (int)r.below(r.chance(1, 3) ? 8 : 24);
       int dir = (int)r.below(2);
       int flip = (int)r.below(4);  // 0: never
@@ -475,6 +517,7 @@ struct C17 : World {
 
   // ---- search context
   struct Cand { std::vector<int> order; int idx = -1; bool first_partial = false; int prog = -1; };
+  enum { PASS_ORIGIN = 0, PASS_TURN = 1, PASS_ANYWHERE = 2 };
   struct SCtx {
     vbi_search* s = nullptr;
     Regex re; bool fold = false, regexp = false, overlap = false; std::string shown;
@@ -483,7 +526,11 @@ struct C17 : World {
     int dir = 0;          // direction of the pass in progress, 0 none
     bool turned = false;  // a direction change happened in this context
     bool strict = false;  // the pass in progress is checked for order and completeness
+    int pass_kind = PASS_ORIGIN;  // where the pass in progress starts: the start page of vbi_search_new(), the page of a direction change, unknown
+    uint32_t pass_version = 0;    // cache version when the pass in progress began
+    int passes_done = 0, last_done_dir = 0;  // passes of this context that ran to not-found, direction of the last one
     std::vector<Cand> cands;
+    std::vector<Cand> excl;  // readings of the start point that an earlier pass from the same start point has ruled out
     int cur_key = -1, cur_i0 = -1;  // last returned page and start of its highlighted occurrence (index into d1)
     uint32_t cur_version = 0;
     std::map<int, std::pair<uint32_t, int>> cls;  // key -> (version, class)
@@ -539,6 +586,20 @@ struct C17 : World {
     a.insert(a.end(), b.begin(), b.end());
     return a;
   }
+  static std::vector<std::vector<int>> order_anywhere(const std::map<int, MPage>& st, int dir) {
+    // ascending (descending) page order wrapping once, the first page left open: every rotation of the key list
+    std::vector<int> keys; for (auto& kv : st) keys.push_back(kv.first);
+    if (dir < 0) std::reverse(keys.begin(), keys.end());
+    std::vector<std::vector<int>> out;
+    for (size_t r = 0; r < keys.size(); r++) { std::vector<int> o(keys.begin() + (long)r, keys.end()); o.insert(o.end(), keys.begin(), keys.begin() + (long)r); out.push_back(o); }
+    if (out.empty()) out.push_back(std::vector<int>());
+    return out;
+  }
+  // The start point is a function of the arguments of vbi_search_new() and the direction ("Another vbi_search_next()
+  // will restart from the original starting point"): which of the accepted readings of "starting at the start page" a
+  // backward pass follows must not depend on what the context, or another context, did before.  Key: start page,
+  // wildcard flag, direction, cache version; value: the visiting orders that explain every pass seen so far.
+  std::map<std::array<int64_t, 4>, std::set<std::vector<int>>> readings;
   static std::vector<int> order_turn(const std::map<int, MPage>& st, int C, int dir) {
     // after a direction change at page C: the rest of C first, then away from C in the new direction, wrapping, up to C
     std::vector<int> keys; for (auto& kv : st) keys.push_back(kv.first);
@@ -616,7 +677,7 @@ struct C17 : World {
     }
     alloc_track_reset();
     ctx = &c; g = this;
-    store.clear(); derived.clear(); version = 0; frame.clear(); ts = 5000.0; sc = nullptr; max_edges_seen = 0;
+    store.clear(); derived.clear(); readings.clear(); version = 0; frame.clear(); ts = 5000.0; sc = nullptr; max_edges_seen = 0;
     frame_max = (int)(llabs(plan.knob("frame_max", 4)) % 17); if (frame_max < 1) frame_max = 1;
     bool serial = plan.knob("serial") & 1;
     bool stat = plan.knob("static") & 1;
@@ -629,7 +690,7 @@ struct C17 : World {
       if (lv) vbi_teletext_set_level(dec, lvl[lv]);
     }
     std::vector<const Op*> pages, sops;
-    for (auto& op : plan.ops) { if (op.kind == "page") pages.push_back(&op); else if (op.kind == "new" || op.kind == "next" || op.kind == "pump") sops.push_back(&op); }
+    for (auto& op : plan.ops) { if (op.kind == "page") pages.push_back(&op); else if (op.kind == "new" || op.kind == "next" || op.kind == "pass" || op.kind == "pump") sops.push_back(&op); }
     bool bc_done = pages.empty(); Task* waiter = nullptr;
     int n_success = 0, n_notfound = 0, n_empty = 0, n_calls = 0, n_turns = 0, n_strict_calls = 0;
 
@@ -681,9 +742,9 @@ struct C17 : World {
       sctx = SCtx(); sc = nullptr;
     };
     // evaluate one event against every candidate order; candidates that cannot explain it are dropped
-    auto filter = [&](const char* what, int key, bool is_return, std::string& why) {
+    auto filter = [&](std::vector<Cand>& cands, const char* what, int key, bool is_return, std::string& why) {
       std::vector<Cand> keep;
-      for (Cand& cd : sctx.cands) {
+      for (Cand& cd : cands) {
         int j = -1;
         for (int k = std::max(cd.idx, 0); k < (int)cd.order.size(); k++) if (cd.order[(size_t)k] == key) { j = k; break; }
         char t[256];
@@ -697,8 +758,204 @@ struct C17 : World {
         Cand n = cd; if (is_return) n.idx = j; else n.prog = j;
         keep.push_back(n);
       }
-      sctx.cands = keep;
+      cands = keep;
       return !keep.empty();
+    };
+    auto filter_progress = [&](std::vector<Cand>& cands, int k) {
+      std::vector<Cand> keep;
+      for (Cand& cd : cands) { int j = -1; for (int q = std::max(cd.prog, 0); q < (int)cd.order.size(); q++) if (cd.order[(size_t)q] == k) { j = q; break; } if (j >= 0) { cd.prog = j; keep.push_back(cd); } }
+      cands = keep;
+      return !keep.empty();
+    };
+    // not-found: candidates under which a page that must be found has not been visited yet are dropped
+    auto filter_notfound = [&](std::vector<Cand>& cands, std::string& miss) {
+      std::vector<Cand> keep;
+      for (Cand& cd : cands) {
+        bool bad = false;
+        for (int k = cd.idx + 1; k < (int)cd.order.size(); k++) {
+          if (k == 0 && cd.first_partial) continue;
+          if (classify(sctx, cd.order[(size_t)k]) == MUST) { char t[96]; snprintf(t, sizeof t, "%x.%x", cd.order[(size_t)k] >> 16, cd.order[(size_t)k] & 0xFFFF); if (miss.empty()) miss = t; bad = true; break; }
+        }
+        if (!bad) keep.push_back(cd);
+      }
+      cands = keep;
+      return !keep.empty();
+    };
+    auto start_moved = [&](int dir, const char* what, int key) {
+      c.fail("oracle:search-start-moved", "pattern '%s' dir %d from %x.%x%s, pass %d of the context: %s (%x.%x) fits the page order only under a reading of 'starting at the start page' that another pass in this "
+             "direction from the same start page over the same cache has ruled out: where a pass starts depends on what the search context did before", sctx.shown.c_str(), dir, sctx.S >> 16, sctx.S & 0xFFFF,
+             sctx.any_sub ? " (any subpage)" : "", sctx.passes_done + 1, what, key >> 16, key & 0xFFFF);
+    };
+    auto record_reading = [&] {
+      if (!sctx.strict || sctx.pass_kind != PASS_ORIGIN || sctx.cands.empty() || c.failed) return;
+      std::set<std::vector<int>> ok; for (Cand& cd : sctx.cands) ok.insert(cd.order);
+      readings[std::array<int64_t, 4>{sctx.S, sctx.any_sub ? 1 : 0, sctx.dir, (int64_t)sctx.pass_version}] = ok;
+    };
+
+    // one vbi_search_next() call and its evaluation; returns the status, or -100 after a failure
+    auto do_next = [&](int dir) -> int {
+      bool updated = sctx.had_call && sctx.last_version != version;
+      if (updated) { c.count("fault_update_between_calls"); if (sctx.cur_key >= 0 && (!store.count(sctx.cur_key) || store[sctx.cur_key].version != sctx.cur_version)) c.count("fault_current_page_replaced"); }
+      // the page returned last is still cached as it was returned: the position inside it is still meaningful
+      bool same_page_progress_checkable = sctx.cur_key >= 0 && store.count(sctx.cur_key) && store[sctx.cur_key].version == sctx.cur_version;
+      if (sctx.strict && version != sctx.pass_version) {
+        // The cache changed in the middle of the pass.  For "pages replaced between calls" the statement promises that the
+        // call terminates; which of the old and new pages the rest of the pass owes is not said -> the rest of this pass
+        // gets the per-return checks only.  The next pass (after not-found or a direction change) is judged in full again.
+        sctx.strict = false; sctx.cands.clear(); sctx.excl.clear(); c.count("pass_left_to_per_return_checks_by_update");
+      }
+      if (sctx.dir == 0) {
+        // A new pass.  search.h, VBI_SEARCH_NOT_FOUND: "Another vbi_search_next() will restart from the original starting
+        // point", so a pass after not-found, in either direction, is the pass a fresh context would make.
+        sctx.dir = dir; sctx.cands.clear(); sctx.excl.clear(); sctx.cur_key = -1; sctx.cur_i0 = -1;
+        sctx.pass_version = version; sctx.strict = true;
+        if (sctx.passes_done) c.count(dir == sctx.last_done_dir ? "pass_after_completed_pass_same_dir" : "pass_after_completed_pass_other_dir");
+        if (!sctx.turned) {
+          sctx.pass_kind = PASS_ORIGIN;
+          if (dir > 0) { Cand a; a.order = order_from(store, sctx.S, +1, false); sctx.cands.push_back(a); }
+          else {
+            // backward: the documentation makes the start page the LAST page visited, the statement lets the pass START
+            // there, and with a wildcard subpage the start page's subpages come first: all three orders are accepted ...
+            int S = sctx.S, Sany = (S & ~0xFFFF) | 0x3F7F;
+            Cand a; a.order = order_from(store, S, -1, false); sctx.cands.push_back(a);
+            Cand b; b.order = order_from(store, S, -1, true); if (b.order != a.order) sctx.cands.push_back(b);
+            Cand d; d.order = order_from(store, Sany, -1, true); if (d.order != a.order && d.order != b.order) sctx.cands.push_back(d);
+          }
+          // ... but it is one and the same order for every pass in this direction from this start page while the cache
+          // does not change, whatever the context (or an earlier context with the same start page) did before
+          auto it = readings.find(std::array<int64_t, 4>{sctx.S, sctx.any_sub ? 1 : 0, dir, (int64_t)version});
+          if (it != readings.end()) {
+            std::vector<Cand> keep;
+            for (Cand& cd : sctx.cands) (it->second.count(cd.order) ? keep : sctx.excl).push_back(cd);
+            sctx.cands = keep;
+            c.count(sctx.excl.empty() ? "start_point_seen_before" : "start_point_pinned_by_earlier_pass");
+          }
+        } else {
+          // After a direction change in the middle of a pass the implementation restarts later passes at the page where the
+          // direction last changed, while search.h promises the original starting point, and the statement does not say what
+          // the start page of such a pass is: any first page is accepted.  Still demanded, as for every pass: ascending
+          // (descending) page order wrapping once, each page once, every page with a match, then not-found.
+          sctx.pass_kind = PASS_ANYWHERE;
+          for (auto& o : order_anywhere(store, dir)) { Cand a; a.order = o; sctx.cands.push_back(a); }
+          c.count("pass_restarted_in_turned_context");
+        }
+      } else if (dir != sctx.dir) {
+        // direction change: a new pass in the other direction starting at the current position
+        n_turns++; c.count("direction_changes");
+        sctx.dir = dir; sctx.turned = true; sctx.cands.clear(); sctx.excl.clear();
+        sctx.pass_kind = PASS_TURN; sctx.pass_version = version;
+        sctx.strict = sctx.cur_key >= 0;
+        if (sctx.strict) { Cand a; a.order = order_turn(store, sctx.cur_key, dir); a.idx = store.count(sctx.cur_key) ? 0 : -1; a.first_partial = true; sctx.cands.push_back(a); }
+      }
+      sctx.prog_keys.clear(); sctx.canceled_now = false;
+      for (Cand& cd : sctx.cands) cd.prog = cd.idx;
+      for (Cand& cd : sctx.excl) cd.prog = cd.idx;
+      vbi_page* pg = (vbi_page*)(uintptr_t)0x10;  // must be overwritten
+      int st;
+      // bounded liveness: one call walks at most twice around the 0x800 page numbers, probes every subpage number of
+      // every cached page number and formats every cached page at most twice
+      uint64_t budget = 40000000ull + 6000000ull * (uint64_t)store.size();
+      uint64_t e0 = edges_executed();
+      budget_begin("vbi_search_next", budget);
+      { SutScope s2; st = vbi_search_next(sctx.s, &pg, dir); }
+      budget_end();
+      uint64_t used = edges_executed() - e0;
+      if (used > max_edges_seen) max_edges_seen = used;
+      n_calls++; if (sctx.strict) { n_strict_calls++; if (!stat) c.count("strict_calls_between_updates"); }
+      sctx.had_call = true; sctx.last_version = version;
+      c.log("search_next dir=%d -> %d %s", dir, st, st == VBI_SEARCH_SUCCESS && pg ? "page" : "");
+      c.state(hash_mix((uint64_t)st + 8, hash_mix((uint64_t)store.size(), (uint64_t)(dir + 1) * 4 + (sctx.strict ? 1 : 0) + (sctx.turned ? 2 : 0))));
+      std::string why;
+      // progress reports: every page scanned, in pass order
+      if (sctx.strict) for (int k : sctx.prog_keys) {
+        if (!store.count(k)) { c.fail("oracle:search-progress", "progress callback reported %x.%x which is not cached", k >> 16, k & 0xFFFF); break; }
+        filter_progress(sctx.excl, k);
+        if (!filter_progress(sctx.cands, k)) {
+          if (!sctx.excl.empty()) start_moved(dir, "the page reported by the progress callback", k);
+          else c.fail("oracle:search-order", "pattern '%s' dir %d from %x.%x: progress callback reported page %x.%x out of page order", sctx.shown.c_str(), dir, sctx.S >> 16, sctx.S & 0xFFFF, k >> 16, k & 0xFFFF);
+          break;
+        }
+      }
+      if (c.failed) return -100;
+      switch (st) {
+        case VBI_SEARCH_SUCCESS: {
+          n_success++;
+          if (!pg || pg == (vbi_page*)(uintptr_t)0x10) { c.fail("oracle:search-status", "VBI_SEARCH_SUCCESS without a page"); break; }
+          int key = (pg->pgno << 16) | pg->subno;
+          c.log("found %x.%x", pg->pgno, pg->subno);
+          if (!store.count(key)) { c.fail("oracle:search-uncached", "pattern '%s': returned page %x.%x which is not in the cache", sctx.shown.c_str(), pg->pgno, pg->subno); break; }
+          int cl = classify(sctx, key);
+          if (cl == MUSTNOT) { c.fail("oracle:search-false-positive", "pattern '%s'%s%s: returned page %x.%x whose displayed rows 1-23 contain no match", sctx.shown.c_str(), sctx.regexp ? " (regex)" : "", sctx.fold ? " (casefold)" : "", pg->pgno, pg->subno); break; }
+          if (cl == MAY) c.count("returned_may_page");
+          int i0 = check_highlight(sctx, key, pg);
+          if (i0 < 0) break;
+          if (key == sctx.cur_key && same_page_progress_checkable && !sctx.canceled_now && sctx.cur_i0 >= 0) {
+            // the same page again: must be another occurrence further on in the direction of travel
+            c.count("same_page_again");
+            if (dir > 0 ? i0 <= sctx.cur_i0 : i0 >= sctx.cur_i0) { c.fail("oracle:search-repeat", "pattern '%s' dir %d: page %x.%x returned again with an occurrence that is not %s the previous one", sctx.shown.c_str(), dir, pg->pgno, pg->subno, dir > 0 ? "after" : "before"); break; }
+          }
+          if (sctx.strict) {
+            std::string why2;
+            filter(sctx.excl, "returned", key, true, why2);
+            if (!filter(sctx.cands, "returned", key, true, why)) {
+              if (!sctx.excl.empty()) start_moved(dir, "the returned page", key);
+              else if (why.compare(0, 7, "missed:") == 0) c.fail("oracle:search-missed", "pattern '%s'%s%s dir %d from %x.%x: %s", sctx.shown.c_str(), sctx.regexp ? " (regex)" : "", sctx.fold ? " (casefold)" : "", dir, sctx.S >> 16, sctx.S & 0xFFFF, why.c_str() + 7);
+              else c.fail("oracle:search-order", "pattern '%s' dir %d from %x.%x: %s", sctx.shown.c_str(), dir, sctx.S >> 16, sctx.S & 0xFFFF, why.c_str());
+              break;
+            }
+            record_reading();
+          }
+          sctx.cur_key = key; sctx.cur_i0 = i0; sctx.cur_version = store[key].version;
+          break;
+        }
+        case VBI_SEARCH_NOT_FOUND: {
+          n_notfound++;
+          if (sctx.strict) {
+            bool had = !sctx.cands.empty();
+            std::string miss, miss2;
+            filter_notfound(sctx.excl, miss2);
+            if (had && !filter_notfound(sctx.cands, miss)) {
+              if (!sctx.excl.empty()) start_moved(dir, "not-found at this point of the pass from the start page", sctx.S);
+              else c.fail("oracle:search-missed", "pattern '%s'%s%s dir %d from %x.%x: not-found reported although page %s, not yet visited in this pass, contains a match", sctx.shown.c_str(), sctx.regexp ? " (regex)" : "", sctx.fold ? " (casefold)" : "", dir, sctx.S >> 16, sctx.S & 0xFFFF, miss.c_str());
+              break;
+            }
+            record_reading();
+            c.count("strict_passes_completed");
+            if (sctx.pass_kind == PASS_ANYWHERE) c.count("strict_passes_completed_in_turned_context");
+            if (!stat) c.count("strict_passes_completed_between_updates");
+          }
+          sctx.passes_done++; sctx.last_done_dir = dir;
+          sctx.dir = 0; sctx.cands.clear(); sctx.excl.clear(); sctx.cur_key = -1; sctx.cur_i0 = -1;
+          break;
+        }
+        case VBI_SEARCH_CACHE_EMPTY:
+          n_empty++;
+          // "No pages in the cache"
+          if (!store.empty()) { c.fail("oracle:search-cache-empty", "VBI_SEARCH_CACHE_EMPTY although %zu pages are cached", store.size()); break; }
+          break;
+        case VBI_SEARCH_CANCELED: {
+          if (!sctx.canceled_now) { c.fail("oracle:search-status", "VBI_SEARCH_CANCELED although the progress function did not cancel"); break; }
+          // search.h: "pg points to the current page as in success case" - the statement does not cover cancelling; probe only
+          if (!pg) c.count("canceled_pg_null");
+          int key = sctx.cancel_key;
+          if (sctx.strict) {
+            // the cancelled page is searched again by the next call
+            for (Cand& cd : sctx.cands) if (cd.prog >= 0 && cd.prog > cd.idx) cd.idx = cd.prog - 1;
+            for (Cand& cd : sctx.excl) if (cd.prog >= 0 && cd.prog > cd.idx) cd.idx = cd.prog - 1;
+            record_reading();
+          }
+          if (key != sctx.cur_key) { sctx.cur_key = key; sctx.cur_i0 = -1; sctx.cur_version = store.count(key) ? store[key].version : 0; }
+          break;
+        }
+        default:
+          c.fail("oracle:search-status", "vbi_search_next returned %d", st);
+          break;
+      }
+      if (c.failed) return -100;
+      if (st != VBI_SEARCH_CANCELED && sctx.canceled_now) { c.fail("oracle:search-status", "progress function cancelled but vbi_search_next returned %d", st); return -100; }
+      if (store.empty() && st != VBI_SEARCH_CACHE_EMPTY && st != VBI_SEARCH_NOT_FOUND) { c.fail("oracle:search-cache-empty", "status %d on an empty cache", st); return -100; }
+      sched.yield();
+      return st;
     };
 
     if (!sops.empty()) sched.spawn("searcher", [&] {
@@ -768,131 +1025,17 @@ struct C17 : World {
           sched.yield();
           continue;
         }
-        // ---- next
         if (!sctx.s) continue;
         int dir = (op->arg(0) & 1) ? +1 : -1;
-        if (sctx.had_call && sctx.last_version != version) { c.count("fault_update_between_calls"); if (sctx.cur_key >= 0 && (!store.count(sctx.cur_key) || store[sctx.cur_key].version != sctx.cur_version)) c.count("fault_current_page_replaced"); }
-        bool same_page_progress_checkable = stat;
-        if (sctx.dir == 0) {
-          // a new pass from the start page given to vbi_search_new()
-          sctx.dir = dir; sctx.cands.clear(); sctx.cur_key = -1; sctx.cur_i0 = -1;
-          sctx.strict = stat && !sctx.turned;
-          // after a direction change the context restarts from where it turned, while search.h promises "the original
-          // starting point"; the statement says nothing about passes after not-found -> such passes get per-return checks only
-          if (sctx.strict) {
-            if (dir > 0) { Cand a; a.order = order_from(store, sctx.S, +1, false); sctx.cands.push_back(a); }
-            else {
-              // backward: the documentation makes the start page the LAST page visited, the statement lets the pass START
-              // there, and with a wildcard subpage the start page's subpages come first: both orders are accepted
-              int S = sctx.S, Sany = (S & ~0xFFFF) | 0x3F7F;
-              Cand a; a.order = order_from(store, S, -1, false); sctx.cands.push_back(a);
-              Cand b; b.order = order_from(store, S, -1, true); if (b.order != a.order) sctx.cands.push_back(b);
-              Cand d; d.order = order_from(store, Sany, -1, true); if (d.order != a.order && d.order != b.order) sctx.cands.push_back(d);
-            }
-          }
-        } else if (dir != sctx.dir) {
-          // direction change: a new pass in the other direction starting at the current position
-          n_turns++; c.count("direction_changes");
-          sctx.dir = dir; sctx.turned = true; sctx.cands.clear();
-          sctx.strict = stat && sctx.cur_key >= 0;
-          if (sctx.strict) { Cand a; a.order = order_turn(store, sctx.cur_key, dir); a.idx = store.count(sctx.cur_key) ? 0 : -1; a.first_partial = true; sctx.cands.push_back(a); }
+        if (op->kind == "pass") {
+          // a whole pass: ask for the next match until not-found (a cancelling progress function or a page full of
+          // occurrences can make that arbitrarily long: at most 1-64 calls)
+          int limit = 1 + (int)(llabs(op->arg(1)) % 64), st = VBI_SEARCH_SUCCESS;
+          for (int i = 0; i < limit && !c.failed && (st == VBI_SEARCH_SUCCESS || st == VBI_SEARCH_CANCELED); i++) st = do_next(dir);
+          if (st == VBI_SEARCH_NOT_FOUND) c.count("pass_ops_run_to_not_found");
+          continue;
         }
-        sctx.prog_keys.clear(); sctx.canceled_now = false;
-        for (Cand& cd : sctx.cands) cd.prog = cd.idx;
-        vbi_page* pg = (vbi_page*)(uintptr_t)0x10;  // must be overwritten
-        int st;
-        // bounded liveness: one call walks at most twice around the 0x800 page numbers, probes every subpage number of
-        // every cached page number and formats every cached page at most twice
-        uint64_t budget = 40000000ull + 6000000ull * (uint64_t)store.size();
-        uint64_t e0 = edges_executed();
-        budget_begin("vbi_search_next", budget);
-        { SutScope s2; st = vbi_search_next(sctx.s, &pg, dir); }
-        budget_end();
-        uint64_t used = edges_executed() - e0;
-        if (used > max_edges_seen) max_edges_seen = used;
-        n_calls++; if (sctx.strict) n_strict_calls++;
-        sctx.had_call = true; sctx.last_version = version;
-        c.log("search_next dir=%d -> %d %s", dir, st, st == VBI_SEARCH_SUCCESS && pg ? "page" : "");
-        c.state(hash_mix((uint64_t)st + 8, hash_mix((uint64_t)store.size(), (uint64_t)(dir + 1) * 4 + (sctx.strict ? 1 : 0) + (sctx.turned ? 2 : 0))));
-        std::string why;
-        // progress reports: every page scanned, in pass order
-        if (sctx.strict) for (int k : sctx.prog_keys) {
-          if (!store.count(k)) { c.fail("oracle:search-progress", "progress callback reported %x.%x which is not cached", k >> 16, k & 0xFFFF); break; }
-          std::vector<Cand> keep;
-          for (Cand& cd : sctx.cands) { int j = -1; for (int q = std::max(cd.prog, 0); q < (int)cd.order.size(); q++) if (cd.order[(size_t)q] == k) { j = q; break; } if (j >= 0) { cd.prog = j; keep.push_back(cd); } }
-          if (keep.empty()) { c.fail("oracle:search-order", "pattern '%s' dir %d from %x.%x: progress callback reported page %x.%x out of page order", sctx.shown.c_str(), dir, sctx.S >> 16, sctx.S & 0xFFFF, k >> 16, k & 0xFFFF); break; }
-          sctx.cands = keep;
-        }
-        if (c.failed) break;
-        switch (st) {
-          case VBI_SEARCH_SUCCESS: {
-            n_success++;
-            if (!pg || pg == (vbi_page*)(uintptr_t)0x10) { c.fail("oracle:search-status", "VBI_SEARCH_SUCCESS without a page"); break; }
-            int key = (pg->pgno << 16) | pg->subno;
-            c.log("found %x.%x", pg->pgno, pg->subno);
-            if (!store.count(key)) { c.fail("oracle:search-uncached", "pattern '%s': returned page %x.%x which is not in the cache", sctx.shown.c_str(), pg->pgno, pg->subno); break; }
-            int cl = classify(sctx, key);
-            if (cl == MUSTNOT) { c.fail("oracle:search-false-positive", "pattern '%s'%s%s: returned page %x.%x whose displayed rows 1-23 contain no match", sctx.shown.c_str(), sctx.regexp ? " (regex)" : "", sctx.fold ? " (casefold)" : "", pg->pgno, pg->subno); break; }
-            if (cl == MAY) c.count("returned_may_page");
-            int i0 = check_highlight(sctx, key, pg);
-            if (i0 < 0) break;
-            if (key == sctx.cur_key && same_page_progress_checkable && !sctx.canceled_now && sctx.cur_i0 >= 0) {
-              // the same page again: must be another occurrence further on in the direction of travel
-              c.count("same_page_again");
-              if (dir > 0 ? i0 <= sctx.cur_i0 : i0 >= sctx.cur_i0) { c.fail("oracle:search-repeat", "pattern '%s' dir %d: page %x.%x returned again with an occurrence that is not %s the previous one", sctx.shown.c_str(), dir, pg->pgno, pg->subno, dir > 0 ? "after" : "before"); break; }
-            }
-            if (sctx.strict && !filter("returned", key, true, why)) {
-              if (why.compare(0, 7, "missed:") == 0) c.fail("oracle:search-missed", "pattern '%s'%s%s dir %d from %x.%x: %s", sctx.shown.c_str(), sctx.regexp ? " (regex)" : "", sctx.fold ? " (casefold)" : "", dir, sctx.S >> 16, sctx.S & 0xFFFF, why.c_str() + 7);
-              else c.fail("oracle:search-order", "pattern '%s' dir %d from %x.%x: %s", sctx.shown.c_str(), dir, sctx.S >> 16, sctx.S & 0xFFFF, why.c_str());
-              break;
-            }
-            sctx.cur_key = key; sctx.cur_i0 = i0; sctx.cur_version = store[key].version;
-            break;
-          }
-          case VBI_SEARCH_NOT_FOUND: {
-            n_notfound++;
-            if (sctx.strict) {
-              bool okany = sctx.cands.empty();
-              std::string miss;
-              for (Cand& cd : sctx.cands) {
-                bool bad = false;
-                for (int k = cd.idx + 1; k < (int)cd.order.size(); k++) {
-                  if (k == 0 && cd.first_partial) continue;
-                  if (classify(sctx, cd.order[(size_t)k]) == MUST) { char t[96]; snprintf(t, sizeof t, "%x.%x", cd.order[(size_t)k] >> 16, cd.order[(size_t)k] & 0xFFFF); if (miss.empty()) miss = t; bad = true; break; }
-                }
-                if (!bad) okany = true;
-              }
-              if (!okany) { c.fail("oracle:search-missed", "pattern '%s'%s%s dir %d from %x.%x: not-found reported although page %s, not yet visited in this pass, contains a match", sctx.shown.c_str(), sctx.regexp ? " (regex)" : "", sctx.fold ? " (casefold)" : "", dir, sctx.S >> 16, sctx.S & 0xFFFF, miss.c_str()); break; }
-              c.count("strict_passes_completed");
-            }
-            sctx.dir = 0; sctx.cands.clear(); sctx.cur_key = -1; sctx.cur_i0 = -1;
-            break;
-          }
-          case VBI_SEARCH_CACHE_EMPTY:
-            n_empty++;
-            // "No pages in the cache"
-            if (!store.empty()) { c.fail("oracle:search-cache-empty", "VBI_SEARCH_CACHE_EMPTY although %zu pages are cached", store.size()); break; }
-            break;
-          case VBI_SEARCH_CANCELED: {
-            if (!sctx.canceled_now) { c.fail("oracle:search-status", "VBI_SEARCH_CANCELED although the progress function did not cancel"); break; }
-            // search.h: "pg points to the current page as in success case" - the statement does not cover cancelling; probe only
-            if (!pg) c.count("canceled_pg_null");
-            int key = sctx.cancel_key;
-            if (sctx.strict) {
-              // the cancelled page is searched again by the next call
-              for (Cand& cd : sctx.cands) if (cd.prog >= 0 && cd.prog > cd.idx) cd.idx = cd.prog - 1;
-            }
-            if (key != sctx.cur_key) { sctx.cur_key = key; sctx.cur_i0 = -1; sctx.cur_version = store.count(key) ? store[key].version : 0; }
-            break;
-          }
-          default:
-            c.fail("oracle:search-status", "vbi_search_next returned %d", st);
-            break;
-        }
-        if (c.failed) break;
-        if (st != VBI_SEARCH_CANCELED && sctx.canceled_now) { c.fail("oracle:search-status", "progress function cancelled but vbi_search_next returned %d", st); break; }
-        if (store.empty() && st != VBI_SEARCH_CACHE_EMPTY && st != VBI_SEARCH_NOT_FOUND) { c.fail("oracle:search-cache-empty", "status %d on an empty cache", st); break; }
-        sched.yield();
+        do_next(dir);
       }
       end_ctx();
     });
